@@ -42,6 +42,14 @@ def build(desc):
         mp = dict(mp, handicaps="lines", n_runners=(2, 4))
     case, snaps = simgen.gen_case(desc["seed"], desc["idx"], market_params=mp, script_params=sp, n_strategies=(1, 1) if lone else (1, 3), salt=6)
     case["config"] = {"simulated_strategy_isolation": rng.random() < 0.7}
+    if desc["idx"] % 4 == 1 and not lone:
+        # a strategy's orders go through two or three clients with different settings: the traded volume is still shared
+        ncl = rng.choice((2, 3))
+        case["clients"] = [{"username": "sim%d" % i, "commission": (0.05, 0.02, 0.0)[i]} for i in range(ncl)]
+        for st in case["strategies"]:
+            for a in st["actions"]:
+                if a["op"] == "place":
+                    a["client"] = rng.randrange(ncl)
     return case, snaps
 
 
